@@ -261,7 +261,7 @@ CONTRACTS = [
     ),
     Contract(
         id='K9', target='taskchain.chain:TaskParameterConfig.get_name_for_persistence',
-        props={'C12': 'decisive', 'C02': 'supporting', 'C03': 'supporting'},
+        props={'C12': 'decisive', 'C02': 'supporting', 'C03': 'supporting', 'C13': 'supporting', 'C01': 'supporting'},
         inputs={'task': Abs(TaskForKeyIface, 'task'),
                 'self': Obj('taskchain.chain:TaskParameterConfig', input_tasks=SymDict(Str, Str, 'inputs'))},
         call=['self', 'task'],
@@ -361,7 +361,7 @@ def k8_post(self, original_task, input_tasks):
 CONTRACTS += [
     Contract(
         id='K8', target='taskchain.chain:TaskParameterConfig.__init__',
-        props={'C01': 'decisive', 'C02': 'supporting', 'C03': 'supporting', 'C09': 'decisive', 'C12': 'decisive'},
+        props={'C01': 'decisive', 'C02': 'supporting', 'C03': 'supporting', 'C09': 'decisive', 'C12': 'decisive', 'C13': 'supporting'},
         inputs={'self': Obj('taskchain.chain:TaskParameterConfig'), 'original_task': Abs(OrigTaskIface, 'original_task'),
                 'input_tasks': SymDict(Str, InTaskRec, 'input_tasks')},
         callees={'taskchain.chain:TaskParameterConfig.get_name_for_persistence': ByContract(spec='k8_key_of')},
